@@ -155,6 +155,11 @@ def check(ctx):
     ctx.check(("aliaser" in a) == ("aliaser" in b), "C19.R4", "default-serialization:aliaser", None,
               f"the two siblings serialize defaults with different aliaser handling ({a} vs {b})", None, None, detail="both pass aliaser")
 
+    # ---------------- R6 scoped traversal state
+    from .common_scoped import scoped_state_rule
+    ctx.rule("C19.R6", "GraphQL builders change traversal state (get_flattened, ...) only inside `with context_setter(self)`", floor=2)
+    scoped_state_rule(ctx, "C19.R6", lambda q: q.startswith("apischema.graphql"))
+
     # ---------------- R5 order
     ctx.rule("C19.R5", "GraphQL fields go through sort_by_order on Python names", floor=1)
     mf = model.func(f"{GQL}.merge_fields")
@@ -189,5 +194,7 @@ def mutants(mb):
     mb.add_text("out-field-name", G, "        flattened_factories = []\n        for field in fields:\n            if not field.is_aggregate:\n                normal_field = NormalField(\n                    self.aliaser(field.alias),", "        flattened_factories = []\n        for field in fields:\n            if not field.is_aggregate:\n                normal_field = NormalField(\n                    self.aliaser(field.name),", "C19", "OutputSchemaBuilder.object")
     mb.add_text("tuple-not-rejected", G, "    def tuple(self, types: Sequence[AnyType]) -> TypeFactory[GraphQLTp]:\n        raise TypeError(\"Tuple are not supported\")", "    def tuple(self, types: Sequence[AnyType]) -> TypeFactory[GraphQLTp]:\n        raise NotImplementedError", "C19.R1", "tuple")
     mb.add_text("merge-fields-by-alias", G, "cls, fields, lambda f: f.name, lambda f: f.ordering", "cls, fields, lambda f: f.alias, lambda f: f.ordering", "C19.R5", "merge_fields")
+    mb.add_text("flattened-state-not-restored", G, "        with context_setter(self):\n            self.get_flattened = get_flattened\n            return self.visit_with_conv(field.type, field.serialization)",
+                "        self.get_flattened = get_flattened\n        try:\n            return self.visit_with_conv(field.type, field.serialization)\n        finally:\n            self.get_flattened = None", "C19.R6", "_visit_flattened")
     mb.add_text("neg-errors-check-reordered", R, "        if errors:\n            # TODO raise a mypy issue\n            raise ValueError(ValidationError(children=errors).errors)  # type: ignore\n        if info_parameter:\n            values[info_parameter] = __info\n",
                 "        if info_parameter:\n            values[info_parameter] = __info\n        if errors:\n            raise ValueError(ValidationError(children=errors).errors)  # type: ignore\n", negative=True)
